@@ -67,4 +67,14 @@ theorem sfold_nonempty (F : ℕ → Finset ℕ) (M : ℕ → ℕ) :
     · exact (ih (fun i hi => h i (by omega))).image _
     · exact h n (by omega)
 
+/-- the structure layout depends only on the bit length sets and alignments of the first n fields -/
+theorem sfold_congr (F G : ℕ → Finset ℕ) (M N : ℕ → ℕ) :
+    ∀ n, (∀ i, i < n → F i = G i ∧ M i = N i) → sfold F M n = sfold G N n := by
+  intro n
+  induction n with
+  | zero => intro _; rfl
+  | succ n ih =>
+    intro h
+    rw [sfold_succ, sfold_succ, ih (fun i hi => h i (by omega)), (h n (by omega)).1, (h n (by omega)).2]
+
 end Pydsdl
